@@ -30,10 +30,11 @@ type Ev struct {
 }
 
 type Case struct {
-	Body    string     // value throw sleep ignore panic
-	Hold    []string   // verifhook sites at which the implementation is parked until released
-	Threads [][]string // ops: deref deref-short done? cancelled? cancel
-	Sched   []Ev
+	Body     string     // value throw sleep ignore panic
+	Hold     []string   // verifhook sites at which the implementation is parked until released
+	LongPark bool       `json:",omitempty"`
+	Threads  [][]string // ops: deref deref-short done? cancelled? cancel
+	Sched    []Ev
 }
 
 // gates: 0 = inside the body (ctx-aware), 1 = inside the body (ignores cancellation), 2.. = hook sites
@@ -73,7 +74,7 @@ func genCase(t *rapid.T) Case {
 		}
 	}
 	nt := 1 + gen.Uniform(t, "threads", 4)
-	ops := []string{"deref", "deref", "deref-short", "done?", "done?", "cancelled?", "cancel"}
+	ops := []string{"deref", "deref", "deref-short", "deref-cancelled", "done?", "done?", "cancelled?", "cancel"}
 	for i := 0; i < nt; i++ {
 		n := 1 + gen.Uniform(t, "nops", 4)
 		th := []string{}
@@ -105,6 +106,20 @@ func genCase(t *rapid.T) Case {
 		j := gen.Uniform(t, "shuffle", i+1)
 		c.Sched[i], c.Sched[j] = c.Sched[j], c.Sched[i]
 	}
+	if gen.Chance(t, "longpark", 15) {
+		// the body stays parked long after the readers' own contexts have ended: the readers are started
+		// first, everything else comes after a long pause
+		c.LongPark = true
+		front, back := []Ev{}, []Ev{}
+		for _, ev := range c.Sched {
+			if ev.Kind == "start" {
+				front = append(front, ev)
+			} else {
+				back = append(back, ev)
+			}
+		}
+		c.Sched = append(append(front, Ev{Kind: "sleep", Ms: 350}), back...)
+	}
 	return c
 }
 
@@ -116,6 +131,7 @@ type rec struct {
 	v          val.V  // deref value
 	err        string // deref error text ("" = value)
 	ownTimeout bool   // deref-short: the caller's own context ended
+	ctxEnd     int64  // when the caller's own context ended (0: it did not, or has none)
 }
 
 type gate struct {
@@ -218,11 +234,20 @@ func check(c Case) pbt.Verdict {
 	var mu sync.Mutex
 	hist := []rec{}
 	exec := func(client int, op string) string {
-		src := map[string]string{"deref": "@fut", "deref-short": "@fut", "done?": "(future-done? fut)", "cancelled?": "(future-cancelled? fut)", "cancel": "(future-cancel fut)"}[op]
+		src := map[string]string{"deref": "@fut", "deref-short": "@fut", "deref-cancelled": "@fut", "done?": "(future-done? fut)", "cancelled?": "(future-cancelled? fut)", "cancel": "(future-cancel fut)"}[op]
 		ctx, cancel := context.WithTimeout(context.Background(), 20*time.Second)
+		var ctxEnd atomic.Int64
 		if op == "deref-short" {
 			cancel()
 			ctx, cancel = context.WithTimeout(context.Background(), 15*time.Millisecond)
+		}
+		if op == "deref-cancelled" {
+			// a context without any deadline that its owner cancels
+			cancel()
+			ctx, cancel = context.WithCancel(context.Background())
+			c2 := cancel
+			tm := time.AfterFunc(15*time.Millisecond, func() { ctxEnd.Store(time.Now().UnixNano()); c2() })
+			defer tm.Stop()
 		}
 		defer cancel()
 		ast, err := lisp.READ(src, nil, e)
@@ -247,6 +272,12 @@ func check(c Case) pbt.Verdict {
 				r.ownTimeout = ctx.Err() != nil
 			} else {
 				r.v = val.From(res.Val)
+			}
+			switch op {
+			case "deref-short":
+				r.ctxEnd = t0 + int64(15*time.Millisecond)
+			case "deref-cancelled":
+				r.ctxEnd = ctxEnd.Load()
 			}
 		} else {
 			if res.Err != nil {
@@ -398,6 +429,20 @@ func check(c Case) pbt.Verdict {
 			outcomes = append(outcomes, *r)
 			if firstDerefRet == 0 || r.ret < firstDerefRet {
 				firstDerefRet = r.ret
+			}
+		}
+	}
+	// a deref blocks until the outcome is available OR the caller's context ends
+	derefWokenHeld := false
+	for _, h := range c.Hold {
+		if h == "future:deref-woken" {
+			derefWokenHeld = true
+		}
+	}
+	for _, r := range hist {
+		if r.ctxEnd != 0 && r.ret > r.ctxEnd && !derefWokenHeld {
+			if late := time.Duration(r.ret - r.ctxEnd); late > 250*time.Millisecond {
+				return fail("hang:deref-outlives-its-context", "a %s returned %v after its caller's own context had ended", r.op, late)
 			}
 		}
 	}
